@@ -392,7 +392,17 @@ def correspond(ctx):
             dr, dc = int(rng.integers(dmin2, min(3, nbr - 1) + 1)), int(rng.integers(dmin2, min(3, nbc - 1) + 1))
             lamr, lamc = float(10.0 ** int(rng.integers(-2, 4))), float(10.0 ** int(rng.integers(-2, 4)))
             x, z, Y = M.make_data2d(rng, m_, n_)
-            if rng.random() < 0.5:
+            alike = _ == 0 or rng.random() < 0.25
+            if alike:
+                # the two axes "look alike": square grid, the same degree / knot count / range (hence the same knot vector) on both
+                # axes, but different positions of the points inside the range
+                n_, degc, kc, nbc = m_, degr, kr, nbr
+                dc = min(dc, nbc - 1)
+                x, z, Y = M.make_data2d(rng, m_, n_)
+                x = 5.0 * np.linspace(0, 1, m_)
+                z = 5.0 * np.linspace(0, 1, n_) ** 3
+                ctx.count('2d-axes-alike')
+            elif rng.random() < 0.5:
                 x = np.sort(rng.uniform(0, 5, m_))
                 z = np.sort(rng.uniform(-2, 2, n_))
             kw = dict(lam=(lamr, lamc), diff_order=(dr, dc), num_knots=(kr, kc), spline_degree=(degr, degc), max_iter=2, tol=0.0)
